@@ -16,6 +16,20 @@ mod type_queries;
 mod typing;
 mod variables;
 
+/// Verification hooks (cargo feature `verif`): public wrappers over the private narrowing helpers.
+#[cfg(feature = "verif")]
+pub mod verif {
+    use quiver_core::program::Program;
+
+    pub fn intersect_types(a: usize, b: usize, program: &mut Program) -> usize {
+        super::narrowing::intersect_types(a, b, program)
+    }
+
+    pub fn compute_complement(original: usize, narrowed: usize, program: &mut Program) -> usize {
+        super::narrowing::compute_complement(original, narrowed, program)
+    }
+}
+
 pub use codegen::InstructionBuilder;
 pub use modules::ModuleCache;
 pub use provenance::{Narrowings, Provenance};
